@@ -345,7 +345,7 @@ fn run_compositions(kvs: &[Kv], part: usize, parts: usize) -> Result<u64, String
 
 /// FSTs with a wide node (labels with gaps, with and without 0x00 / 0xff),
 /// searched with every byte as a one- or two-byte lower bound.
-fn gap_kvs(n: usize, variant: usize, depth: usize) -> Vec<Kv> {
+pub fn gap_kvs(n: usize, variant: usize, depth: usize) -> Vec<Kv> {
     let mut labels: Vec<u8> = match variant {
         0 => (0..n).map(|i| ((i * 256) / n) as u8).collect(),
         1 => (0..n).map(|i| (256 - n + i) as u8).collect(),
@@ -436,6 +436,7 @@ fn dfa_from(v: &Value) -> TableDfa {
 pub fn replay(case: &Value) -> Result<String, String> {
     let kvs = kvs_from(&case["kvs"]);
     match case["kind"].as_str().unwrap() {
+        "gapsv" => super::c10::run_gaps_versions(case["n"].as_u64().unwrap() as usize, case["variant"].as_u64().unwrap() as usize, case["depth"].as_u64().unwrap() as usize, 2).map(|n| format!("{} searches agree", n)),
         "gaps" => run_gaps(case["n"].as_u64().unwrap() as usize, case["variant"].as_u64().unwrap() as usize, case["depth"].as_u64().unwrap() as usize).map(|n| format!("{} searches agree", n)),
         "table" => {
             let geom = geom_from(&case["geom"]);
@@ -473,7 +474,7 @@ fn do_table(kvs: &[Kv], geom: Geom, auts: &Arc<Vec<TableDfa>>, bmax: usize, wrap
 pub fn plan(tier: Tier) -> Plan {
     let mut p = Plan::new("C04", "model_checking");
     let thorough = tier.thorough();
-    p.rule = "FST x bounds x generated contract-abiding automata: every table DFA with 1..2 states (thorough: 3) over two byte classes, every accepting set, every sound can_match assignment (true where an accepting state is reachable, free elsewhere); search and search_with_state through raw Fst (Map/Set wrappers on small sets); oracle = independent run of the table over each model key incl. the reported state; plus shipped automata/combinators/Levenshtein and regex-automata dense DFAs against specification predicates. every composition of depth <= 2 of AlwaysMatch/Str/Subsequence under StartsWith/Complement/Union/Intersection (real combinator types) against the explicit product DFA; wide nodes (fan-out 2..256, five label layouts incl. gaps below 0xff) searched with every byte as one- and two-byte lower bound under AlwaysMatch/Subsequence/six 2-state table DFAs; operands also passed by reference (impl Automaton for &T); a finite family of 480 (thorough 2400) DFAs with 3..8 states and weakened-but-sound hints per class function over the complete universe of keys of length <= 8 over two bytes; bounds set upper-before-lower and the same bound set twice (last setting wins) on both automaton builders; accept_eof is never overridden. non-trivial = distinct (automaton, FST) pairs with >= 2 keys".into();
+    p.rule = "FST x bounds x generated contract-abiding automata: every table DFA with 1..2 states (thorough: 3) over two byte classes, every accepting set, every sound can_match assignment (true where an accepting state is reachable, free elsewhere); search and search_with_state through raw Fst (Map/Set wrappers on small sets); oracle = independent run of the table over each model key incl. the reported state; plus shipped automata/combinators/Levenshtein and regex-automata dense DFAs against specification predicates. every composition of depth <= 2 of AlwaysMatch/Str/Subsequence under StartsWith/Complement/Union/Intersection (real combinator types) against the explicit product DFA; wide nodes (fan-out 2..256, five label layouts incl. gaps below 0xff) searched with every byte as one- and two-byte lower bound under AlwaysMatch/Subsequence/six 2-state table DFAs; operands also passed by reference (impl Automaton for &T); a finite family of 480 (thorough 2400) DFAs with 3..8 states and weakened-but-sound hints per class function over the complete universe of keys of length <= 8 over two bytes; bounds set upper-before-lower and the same bound set twice (last setting wins) on both automaton builders; accept_eof is never overridden. non-trivial = distinct (automaton, FST) pairs with >= 2 keys; the gap family also in files of versions 1, 2 and 3 from the reference encoder (bounded search and search_with_state)".into();
     p.assumptions = vec!["contract-abiding = deterministic table, sound can_match, default accept_eof".into()];
     let mut auts = all_dfas(1, ClassFn::IsA, false);
     auts.extend(all_dfas(2, ClassFn::IsA, false));
@@ -621,6 +622,21 @@ pub fn plan(tier: Tier) -> Plan {
                     match run_gaps(n, variant, depth) {
                         Ok(c) => { st.evals += c; st.transitions += c; st.count("gap_searches", c); }
                         Err(msg) => rep.violation(format!("gaps fan-out {} variant {} depth {}", n, variant, depth), msg, json!({"kind": "gaps", "n": n, "variant": variant, "depth": depth, "kvs": []})),
+                    }
+                }
+            }
+        }));
+    }
+    // the gap family written by the reference encoder in versions 1, 2 and 3
+    for n in [2usize, 31, 32, 33, 34, 40, 64, 100, 255, 256] {
+        p.units.push(unit("wide-nodes-with-gaps-in-versions-1-2-3", format!("gaps versions fan-out {}", n), move |st, rep| {
+            for variant in 0..5usize {
+                for depth in 0..2usize {
+                    st.states += 3;
+                    st.nontrivial += 3;
+                    match super::c10::run_gaps_versions(n, variant, depth, 2) {
+                        Ok(c) => { st.evals += c; st.transitions += c; st.count("gap_version_queries", c); }
+                        Err(msg) => rep.violation(format!("gaps versions fan-out {} variant {} depth {}", n, variant, depth), msg, json!({"kind": "gapsv", "gapsv": true, "n": n, "variant": variant, "depth": depth, "kvs": []})),
                     }
                 }
             }
